@@ -1417,6 +1417,11 @@ async fn concurrent_round(h: &mut Hyb) {
         let inv = hist::ev("inv", 0, 9000, 0);
         hist::fault("fetch_task_cancelled");
         for t in tasks_before..Spawner::verif_task_count() {
+            // only the fetch tasks: a real runtime never cancels one of the disk tier's io tasks on its own (cancelled
+            // in the middle of a tombstone-page write it leaves the page buffer taken, and the next flush panics)
+            if !Spawner::verif_task_kind(t).contains("RawFetch") {
+                continue;
+            }
             Spawner::verif_abort(t);
         }
         let ret = hist::ev("ret", 0, 9000, 0);
